@@ -70,11 +70,16 @@ def main(argv):
         for c in cfgs: results.append(run_config(prop, c, tier, seed))
     else:
         ctx = mp.get_context("spawn")
-        with ProcessPoolExecutor(max_workers=nproc, mp_context=ctx) as ex:
+        # INFO['fresh_process']: one process per configuration (properties about state kept between calls / objects: module-level
+        # state left by one configuration must not reach the next one)
+        extra = dict(max_tasks_per_child=1) if getattr(mod, "INFO", {}).get("fresh_process") else {}
+        with ProcessPoolExecutor(max_workers=nproc, mp_context=ctx, **extra) as ex:
             futs = {ex.submit(run_config, prop, c, tier, seed): c for c in cfgs}
             for f in as_completed(futs):
                 try:
                     results.append(f.result())
+                    if os.environ.get("VF_PROGRESS"):
+                        print(f"[progress] {len(results)}/{len(cfgs)} {results[-1].get('wall_s', 0):.0f}s {json.dumps(futs[f], sort_keys=True)}", file=sys.stderr, flush=True)
                 except Exception as e:
                     results.append(dict(cfg=futs[f], records=[], violations=[], errors=[f"worker crashed: {e!r}"],
                                         inconclusive=[], functions=[], assumptions=[], stubs=[], validation=[], twins=[],
@@ -155,8 +160,9 @@ def report(prop, mod, tier, seed, results, wall):
         assumptions=sorted({a for res in results for a in res["assumptions"]} | set(info.get("assumptions", []))),
         wall_s=round(wall, 2), violations=len(new_viol),
     )
-    os.makedirs(os.path.join(ROOT, "evidence"), exist_ok=True)
-    with open(os.path.join(ROOT, "evidence", f"{prop}.json"), "w") as f:
+    evdir = os.environ.get("VF_EVIDENCE_DIR") or os.path.join(ROOT, "evidence")     # (development runs against a scratch tree write elsewhere)
+    os.makedirs(evdir, exist_ok=True)
+    with open(os.path.join(evdir, f"{prop}.json"), "w") as f:
         json.dump(ev, f, indent=1, default=str)
     print(f"[{prop} {tier}] configs={len(results)} queries={len(records)} structural={structural} "
           f"solver-decided={len(decided)} twins={len(twins)} unknown={sum(1 for r in records if r['verdict']=='unknown')} "
